@@ -142,6 +142,9 @@ def check(case, rec):
         for i in range(npts):
             pv = [a[i] for a in L]
             for nd in case['nodes']:
+                if nd['op'] == 'arctan2' and numpy.any((numpy.asarray(pv[nd['ch'][0]]) == 0) & (numpy.asarray(pv[nd['ch'][1]]) <= 0)):
+                    # arctan2 is discontinuous in the sign of a zero first operand (+-pi): not a value statement
+                    raise Discard('arctan2-on-branch-cut')
                 pv.append(genfunc.norm64(genfunc.apply(nd['op'], [pv[c] for c in nd['ch']], nd['p'])))
             ref.append(pv[-1])
         ref = numpy.stack(ref)
